@@ -8,35 +8,27 @@ Section Stream.
   Variable v : mvariant.
   Variable et : etype.
 
-  Definition item := (N * mevent)%type.          (* sticky hash (abstract key), event *)
-
-  Fixpoint nget {V} (k : N) (d : list (N * V)) : option V :=
-    match d with [] => None | (k', x) :: r => if N.eqb k k' then Some x else nget k r end.
-  Fixpoint nset {V} (k : N) (x : V) (d : list (N * V)) : list (N * V) :=
-    match d with
-    | [] => [(k, x)]
-    | (k', y) :: r => if N.eqb k k' then (k', x) :: r else (k', y) :: nset k x r
-    end.
+  Definition item := (str * mevent)%type.        (* sticky hash (abstract key), event *)
 
   (* merge_events on a list, None = merge conflict *)
   Definition mrg (evs : list mevent) : option mevent := merge rank v et evs.
 
   (* EDXMLEventMerger: buffer[h] := merge [buffer[h]; e]; everything is written at close *)
-  Fixpoint fold_merger (buf : list (N * mevent)) (s : list item) : option (list (N * mevent)) :=
+  Fixpoint fold_merger (buf : list (str * mevent)) (s : list item) : option (list (str * mevent)) :=
     match s with
     | [] => Some buf
     | (h, e) :: r =>
-        match nget h buf with
-        | None => fold_merger (nset h e buf) r
+        match aget h buf with
+        | None => fold_merger (aset h e buf) r
         | Some b => match mrg [b; e] with
-                    | Some m => fold_merger (nset h m buf) r
+                    | Some m => fold_merger (aset h m buf) r
                     | None => None
                     end
         end
     end.
 
   (* BufferingEDXMLEventMerger *)
-  Definition flush (buf : list (N * list mevent)) : option (list (N * mevent)) :=
+  Definition flush (buf : list (str * list mevent)) : option (list (str * mevent)) :=
     fold_right (fun kv acc =>
                   match acc with
                   | None => None
@@ -48,14 +40,14 @@ Section Stream.
                       end
                   end) (Some []) buf.
 
-  Fixpoint buffered (flush_at_close : bool) (n : nat) (buf : list (N * list mevent)) (count : nat) (s : list item)
-    : option (list (N * mevent)) :=
+  Fixpoint buffered (flush_at_close : bool) (n : nat) (buf : list (str * list mevent)) (count : nat) (s : list item)
+    : option (list (str * mevent)) :=
     match s with
     | [] => if flush_at_close then flush buf else Some []
     | (h, e) :: r =>
-        let buf' := match nget h buf with
-                    | None => nset h [e] buf
-                    | Some l => nset h (l ++ [e]) buf
+        let buf' := match aget h buf with
+                    | None => aset h [e] buf
+                    | Some l => aset h (l ++ [e]) buf
                     end in
         if Nat.leb n (S count) then
           match flush buf' with
@@ -69,21 +61,21 @@ Section Stream.
     end.
 
   (* logical content of an output stream: merge the output events per hash (first-seen order) *)
-  Fixpoint group_by (s : list item) (acc : list (N * list mevent)) : list (N * list mevent) :=
+  Fixpoint group_by (s : list item) (acc : list (str * list mevent)) : list (str * list mevent) :=
     match s with
     | [] => acc
-    | (h, e) :: r => group_by r (match nget h acc with
-                                 | None => nset h [e] acc
-                                 | Some l => nset h (l ++ [e]) acc
+    | (h, e) :: r => group_by r (match aget h acc with
+                                 | None => aset h [e] acc
+                                 | Some l => aset h (l ++ [e]) acc
                                  end)
     end.
-  Definition logical (s : list item) : option (list (N * mevent)) := flush (group_by s []).
+  Definition logical (s : list item) : option (list (str * mevent)) := flush (group_by s []).
 End Stream.
 
 (* comparison for the correspondence run: same hashes in the same order, equal events *)
-Definition out_eqb (a b : option (list (N * mevent))) : bool :=
+Definition out_eqb (a b : option (list (str * mevent))) : bool :=
   match a, b with
   | None, None => true
-  | Some x, Some y => list_eqb (fun p q => N.eqb (fst p) (fst q) && mevent_eqb (snd p) (snd q)) x y
+  | Some x, Some y => list_eqb (fun p q => str_eqb (fst p) (fst q) && mevent_eqb (snd p) (snd q)) x y
   | _, _ => false
   end.
